@@ -523,6 +523,14 @@ func (w *Worker) RunCase(cs *Case, rep *Report) {
 	nlines := 0
 	for _, p := range progs {
 		s, n := p.Render()
+		// atoms pinned to a concrete spelling are written into the source as
+		// that spelling, so that the lexer classifies them itself (a pinned
+		// "01" is an INT token, not the identifier its placeholder would be)
+		for _, a := range p.Atoms.Atoms {
+			if a.Fixed != nil && a.Class != ClsFixedTok {
+				s = strings.ReplaceAll(s, a.Placeholder(), *a.Fixed)
+			}
+		}
 		srcOf[p] = s
 		if p == cs.Prog {
 			nlines = n
